@@ -96,7 +96,12 @@ Record caseT := { k_id : nat; k_n : nat; k_A : list (list t); k_y : list t; k_nc
 Record st := { s_cols : list nat; s_x : list t; s_res : list t; s_rank : nat }.
 
 Variables tolsel tolc tolx : Qc.
-Definition tclose (tol : Qc) (a b : t) : bool := Qcleb (eabs2 E (esub E a b)) (tol * tol * (1 + eabs2 E b)).
+(* ALL tolerances are relative to the scale of the data (homogeneous in y):
+   sc2 is a squared reference magnitude (||y||^2), never the constant 1 *)
+Definition tclose (tol sc2 : Qc) (a b : t) : bool := Qcleb (eabs2 E (esub E a b)) (tol * tol * (sc2 + eabs2 E b)).
+Definition closeS (tol sc a b : Qc) : bool := Qcleb (Qcabs' (a - b)) (tol * (sc + Qcabs' b)).
+Definition qmin1 (l : list Qc) : Qc := match l with [] => 1 | a :: l' => fold_right (fun b m => if Qcleb b m then b else m) a l' end.
+Definition sumA2 (A : list (list t)) : Qc := fold_right (fun r a => n2 r + a) 0 A.
 
 Definition scores2 (c : caseT) (res : list t) : list Qc :=
   map (fun j => let v := eabs2 E (hdot (colE j (k_A c)) res) in
@@ -106,7 +111,11 @@ Definition step1 (c : caseT) (s : st) (i : nat) (colsI : list nat) (costk : Qc) 
   let A := k_A c in
   let sc := scores2 c (s_res s) in
   let mx := qmax sc in
-  let e1 := if Nat.ltb i (k_n c) && Qcleb mx (nth i sc 0 + tolsel * (1 + mx)) then [] else [1%nat] in
+  (* tie tolerance RELATIVE to the largest score; the floor (1e-10 ||y||^2 ||A||_F^2, divided by the smallest
+     squared column norm under normalizecols) only absorbs the rounding of the implementation's residual *)
+  let fl := q 1 10000000000 * n2 (k_y c) * sumA2 A /
+            (if k_nc c then qmin1 (map (fun j => n2 (colE j A)) (seq 0 (k_n c))) else 1) in
+  let e1 := if Nat.ltb i (k_n c) && Qcleb mx (nth i sc 0 + tolsel * mx + fl) then [] else [1%nat] in
   let cols' := if memb i (s_cols s) then s_cols s else s_cols s ++ [i] in
   let e2 := if nat_list_eqb cols' colsI then [] else [2%nat] in
   let s' :=
@@ -122,7 +131,7 @@ Definition step1 (c : caseT) (s : st) (i : nat) (colsI : list nat) (costk : Qc) 
       {| s_cols := cols'; s_x := fst xr; s_res := vsubE (k_y c) (mvE (colsE A cols') (fst xr)); s_rank := snd xr |} in
   let e9 := if k_mp c then [] else
             if forallb (fun j => isz (hdot (colE j A) (s_res s'))) cols' then [] else [9%nat] in
-  let e3 := if close tolc (costk * costk) (n2 (s_res s')) then [] else [3%nat] in
+  let e3 := if closeS tolc (n2 (k_y c)) (costk * costk) (n2 (s_res s')) then [] else [3%nat] in
   (s', e1 ++ e2 ++ e9 ++ e3).
 
 Fixpoint steps (c : caseT) (s : st) (ch : list nat) (cl : list (list nat)) (co : list Qc) : st * list nat :=
@@ -134,8 +143,8 @@ Fixpoint steps (c : caseT) (s : st) (ch : list nat) (cl : list (list nat)) (co :
   | _, _, _ => (s, [11%nat])
   end.
 
-Fixpoint noninc (tol : Qc) (l : list Qc) : bool :=
-  match l with a :: (b :: _) as l' => Qcleb b (a + tol * (1 + a)) && noninc tol l' | _ => true end.
+Fixpoint noninc (tol sc : Qc) (l : list Qc) : bool :=
+  match l with a :: (b :: _) as l' => Qcleb b (a + tol * (sc + a)) && noninc tol sc l' | _ => true end.
 (* while iiter < niter_outer and cost[iiter] > sigma *)
 Fixpoint stop_ok (c : caseT) (k : nat) (l : list Qc) : bool :=
   match l with
@@ -156,7 +165,7 @@ Definition check (c : caseT) : list nat :=
   let K := length (k_choices c) in
   let e11 := if Nat.eqb (k_iiter c) K && Nat.eqb (length (k_cost c)) (S K) then [] else [11%nat] in
   let e14 := if k_consistent c then [] else [14%nat] in
-  let e3a := match k_cost c with c0 :: _ => if close tolc (c0 * c0) (n2 y) then [] else [3%nat] | [] => [11%nat] end in
+  let e3a := match k_cost c with c0 :: _ => if closeS tolc (n2 y) (c0 * c0) (n2 y) then [] else [3%nat] | [] => [11%nat] end in
   let r := steps c {| s_cols := []; s_x := []; s_res := y; s_rank := 0 |} (k_choices c) (k_cols c) (tl (k_cost c)) in
   let s := fst r in
   let cs := s_cols s in
@@ -165,13 +174,12 @@ Definition check (c : caseT) : list nat :=
                forallb (fun j => memb j cs || isz (nth j x z)) (seq 0 (k_n c)) then [] else [4%nat] in
   let xcI := map (fun j => nth j x z) cs in
   let e5 := if negb (Nat.eqb (s_rank s) (length cs)) then [] else
-            if forallb (fun p => tclose tolx (fst p) (snd p)) (combine xcI (s_x s)) then [] else [5%nat] in
-  let scale := 1 + n2 y + fold_right (fun r a => n2 r + a) 0 A in
+            if forallb (fun p => tclose tolx (n2 y) (fst p) (snd p)) (combine xcI (s_x s)) then [] else [5%nat] in
   let resI := vsubE y (mvE A x) in
   let e6 := if k_mp c then [] else
-            if forallb (fun j => Qcleb (eabs2 E (hdot (colE j A) resI)) (tolx * tolx * scale * scale)) cs then [] else [6%nat] in
+            if forallb (fun j => Qcleb (eabs2 E (hdot (colE j A) resI)) (tolx * tolx * n2 y * sumA2 A)) cs then [] else [6%nat] in
   let small := forallb (fun j => Qcleb (n2 (colE j A)) (1 + 1)) (seq 0 (k_n c)) in
-  let e7 := if noninc tolc (k_cost c) then [] else
+  let e7 := if noninc tolc (hd 0 (k_cost c)) (k_cost c) then [] else
             if negb (k_mp c) || small then [7%nat] else if k_nc c then [8%nat] else [] in
   let e10 := if stop_ok c 0 (k_cost c) then [] else [10%nat] in
   let e12 := match k_x0 c with
@@ -179,7 +187,7 @@ Definition check (c : caseT) : list nat :=
              | Some (x0, kk) =>
                  if negb (orthonormal c) then [9%nat] else
                  if Nat.eqb K kk && Nat.eqb (length x) (length x0) &&
-                    forallb (fun p => tclose tolx (fst p) (snd p)) (combine x x0) then [] else [12%nat]
+                    forallb (fun p => tclose tolx (n2 y) (fst p) (snd p)) (combine x x0) then [] else [12%nat]
              end in
   e11 ++ e14 ++ e3a ++ snd r ++ e4 ++ e5 ++ e6 ++ e7 ++ e10 ++ e12.
 End Chk.
